@@ -226,13 +226,26 @@ func propC12Aggregates(t *rapid.T) {
 	// documentation says copy-on-write "requires extra care in a threaded context" - sharing such a
 	// bitmap between concurrent callers is outside the contract; zero-copy inputs are fine)
 	if fn != "ParOr64" && len(bs) > 0 && !anyCOW && rapid.Bool().Draw(t, "sharedInputs") {
+		// ... and, half of the time, the very same argument slice (the functions are read-only on it too)
+		sameSlice := rapid.Bool().Draw(t, "sameSlice")
+		saved := append([]*roaring.Bitmap(nil), bs...)
+		checkSlice := func() {
+			for i := range saved {
+				if bs[i] != saved[i] {
+					t.Fatalf("%s: the caller's argument slice was rewritten (entry %d)", what, i)
+				}
+			}
+		}
 		guarded(t, what+" (two concurrent callers sharing the inputs)", func() {
 			var wg sync.WaitGroup
 			for g := 0; g < 2; g++ {
 				wg.Add(1)
 				go func() {
 					defer wg.Done()
-					args := append([]*roaring.Bitmap(nil), bs...)
+					args := bs
+					if !sameSlice {
+						args = append([]*roaring.Bitmap(nil), bs...)
+					}
 					switch fn {
 					case "ParOr":
 						roaring.ParOr(workers, args...)
@@ -245,6 +258,7 @@ func propC12Aggregates(t *rapid.T) {
 			}
 			wg.Wait()
 		})
+		checkSlice()
 		for i, b := range bs {
 			if g := setOf(b); g == nil || !g.Equal(ms[i]) {
 				t.Fatalf("%s: input #%d was modified by the call: %s", what, i, model.Diff(ms[i], g))
